@@ -112,7 +112,13 @@ SCRIPT = [["from_json_again", {"norm": False}], ["from_json_again", {"norm": Fal
 
 
 def fixed_cases(tier):
-    return [{"prog": {"src": s, "mode": "exec", "optimize": 0, "min_version": 7}, "steps": SCRIPT} for s in FIXED]
+    out = [{"prog": {"src": s, "mode": "exec", "optimize": 0, "min_version": 7}, "steps": SCRIPT} for s in FIXED]
+    # hand-altered code objects: a surrogate string in every place a name can occur
+    for kind in ("argname", "varnames", "names", "freevar_name", "kwonly_name", "co_name", "filename", "docstring", "global_name"):
+        out.append({"prog": {"alter": {"kind": kind, "value": "n\udc80"}, "min_version": 7}, "steps": SCRIPT})
+    for val in (["int", str(2 ** 53)], ["tuple", [["int", str(-(2 ** 70))], ["float", "7ff8000000000000"]]], ["fset", [["bytes", "00"], ["ell"]]]):
+        out.append({"prog": {"alter": {"kind": "operand", "value": val}, "min_version": 7}, "steps": SCRIPT})
+    return out
 
 
 def run_case(ctx, case, versions):
